@@ -64,7 +64,7 @@ def run(ctx):
         R.run_records(ctx, "C03", 240, field=2)
     else:
         runs_stream(ctx, 14)
-        R.run_records(ctx, "C03", 3000, exhaustive_n=4, field=12)
+        R.run_records(ctx, "C03", 1500, exhaustive_n=4, field=8)
 
 
 def replay(ctx, doc):
